@@ -17,17 +17,21 @@ for p in sorted(glob.glob(os.path.join(V, "mutants", "*.patch"))):
 only = sys.argv[1:]
 if only:
     items = [i for i in items if any(o in i for o in only)]
+STORE = os.path.join(V, "seeded", "matrix.json")
+store = json.load(open(STORE)) if os.path.exists(STORE) else {}
 subprocess.check_call(["git", "-C", "/tmp/seedrepo", "checkout", "-q", "--detach", subprocess.check_output(["git", "-C", "/repo", "rev-parse", "HEAD"], text=True).strip()])
 out = subprocess.run([sys.executable, os.path.join(V, "tools", "seedtest.py")] + items, cwd=V, capture_output=True, text=True).stdout
 open("/tmp/matrix.log", "w").write(out)
-rows = []
+fresh = {}
 for line in out.splitlines():
     m = re.match(r"^(\S+)\s+(C\d+)\s+(caught-other|caught|MISSED|ERROR|APPLY-FAILED)\s+\d+s\s*(.*)$", line)
     if m:
-        rows.append(m.groups())
-res = {}
-for name, prop, verdict, keys in rows:
-    res.setdefault(name, []).append((prop, verdict, keys))
+        name, prop, verdict, keys = m.groups()
+        fresh.setdefault(name, {})[prop] = [verdict, keys]
+for name, per in fresh.items():       # a re-run item replaces its old row entirely
+    store[name] = per
+json.dump(store, open(STORE, "w"), indent=1, sort_keys=True)
+res = {name: [(prop, v[0], v[1]) for prop, v in sorted(per.items())] for name, per in store.items()}
 lines = ["# Detection matrix", "", "Static checks run against each change applied to a scratch worktree (`tools/seedtest.py`).",
          "`caught` = the check of that property exits 1 on the variant tree and names the broken instance.", "",
          "| change | written by | property check | verdict | reporting rule instance(s) |", "|---|---|---|---|---|"]
@@ -45,7 +49,6 @@ caught = sum(1 for n in res if n.startswith("C") and not n.endswith(".patch") an
 total = sum(1 for n in res if n.startswith("C") and not n.endswith(".patch"))
 lines += ["", "Sub-agent changes caught by at least one check: %d of %d. The misses are value-level changes (an off-by-one, a wrong comparison operator, a wrong constant) "
           "inside code whose structure is unchanged; they are outside the clauses this technique decides (DESIGN.md section 0)." % (caught, total)]
-if not only:
-    open(os.path.join(V, "seeded", "RESULTS.md"), "w").write("\n".join(lines) + "\n")
-    json.dump(selftest, open(os.path.join(V, "selftest.json"), "w"), indent=1)
+open(os.path.join(V, "seeded", "RESULTS.md"), "w").write("\n".join(lines) + "\n")
+json.dump(selftest, open(os.path.join(V, "selftest.json"), "w"), indent=1)
 print("\n".join(lines[-3:]))
